@@ -1097,7 +1097,7 @@ fn check_history_in(h: &History, scratch: &Path, out: &mut RunOut, case: &Value)
                 } else {
                     let texts: Vec<&String> = em.printed.iter().collect();
                     if n_print > 1 {
-                        if n_print == 2 && grew(&texts) {
+                        if n_print == 2 && grew(&texts) && kind == BodyKind::PanicMutex {
                             out.count("emitted_twice_schedule_grew_during_unwind", 1);
                             out.violation(
                                 format!("C12:unwind-yield:schedule-emitted-twice:print:{}", kind.name()),
@@ -1134,7 +1134,7 @@ fn check_history_in(h: &History, scratch: &Path, out: &mut RunOut, case: &Value)
                 } else {
                     // file names ascend in creation order (the first unused index is taken)
                     let texts: Vec<&String> = new_own.iter().map(|x| &x.1).collect();
-                    let chain = new_own.len() == 2 && grew(&texts);
+                    let chain = new_own.len() == 2 && grew(&texts) && kind == BodyKind::PanicMutex;
                     if new_own.len() > 1 {
                         if chain {
                             out.count("emitted_twice_schedule_grew_during_unwind", 1);
@@ -1252,7 +1252,8 @@ fn check_history_in(h: &History, scratch: &Path, out: &mut RunOut, case: &Value)
                 out.count("early_schedule_reproduced_the_failure", 1);
             } else {
                 out.violation(
-                    format!("C12:unwind-yield:early-schedule-does-not-reproduce:{}:{}", spec.persist.name(), spec.body.name()),
+                    // only the guard-holding body kind is covered by known finding F20
+                    format!("C12:{}early-schedule-does-not-reproduce:{}:{}", if spec.body == BodyKind::PanicMutex { "unwind-yield:" } else { "" }, spec.persist.name(), spec.body.name()),
                     format!("{}: this is the schedule emitted at panic time; original payload {:?}, replay ended with {:?}", ctx, orig_payload, rr.payload),
                     rcase.clone(),
                 );
